@@ -115,6 +115,9 @@ ClauseNames ==
     "C14_final",
     "C16_prune_truth",
     "C04_stays",
+    "C06_serial",
+    "C06_final",
+    "C15_final",
     "C03_readable", "C03_only_own_missing", "C03_continues", "C04_all_or_nothing",
     "C18_where", "C18_same_store", "C18_lands", "C18_reads_work", "C18_lock", "C18_init",
     "C19_all_once", "C19_active_once", "C19_ready_exact", "C19_known_rows", "C19_tree", "C19_summary", "C19_empty", "C19_fits", "C19_idcol", "C19_utf8",
@@ -186,6 +189,9 @@ Eval(n, o) ==
     [] n = "C14_final" -> Cn!C14_final(o)
     [] n = "C16_prune_truth" -> Cn!C16_prune_truth(o)
     [] n = "C04_stays" -> Cn!C04_stays(o)
+    [] n = "C06_serial" -> Cn!C06_serial(o)
+    [] n = "C06_final" -> Cn!C06_final(o)
+    [] n = "C15_final" -> Cn!C15_final(o)
     [] n = "C03_readable" -> Cn!C03_readable(o)
     [] n = "C03_only_own_missing" -> Cn!C03_only_own_missing(o)
     [] n = "C03_continues" -> Cn!C03_continues(o)
@@ -224,6 +230,9 @@ ConcNames == {"C01_serial", "C01_no_double", "C01_outcomes", "C01_winner_holds",
               "C14_final",
               "C16_prune_truth",
               "C04_stays",
+              "C06_serial",
+              "C06_final",
+              "C15_final",
               "C03_readable", "C03_only_own_missing", "C03_continues", "C04_all_or_nothing"}
 TextNames == {"C19_all_once", "C19_active_once", "C19_ready_exact", "C19_known_rows", "C19_tree", "C19_summary", "C19_empty", "C19_fits", "C19_idcol", "C19_utf8", "C17_roundtrip", "C17_stays", "C17_accepted", "C18_where", "C18_same_store", "C18_lands", "C18_reads_work", "C18_lock", "C18_init"}
 Wanted(r) == IF "only" \in DOMAIN r THEN ToSet(r.only) \cap ClauseNames ELSE ClauseNames \ (ConcNames \cup TextNames)
